@@ -128,6 +128,7 @@ fn binary_image(v: bool, flags: u8) -> u8 {
 }
 
 struct TxRec {
+    session: usize,
     uns: bool,
     seq: u8,
     carried: Vec<u64>,
@@ -138,6 +139,7 @@ struct TxRec {
 pub fn check(hdr: &str, lines: &[String], trace: &[(String, Vec<String>)], mon: &mut dyn Write) -> Option<usize> {
     let _ = lines;
     let mut d3_possible = false;
+    let mut session = 0usize;
     let mut d3_panic: Option<usize> = None;
     // ---- what the harness put in
     let mut bin_pts: BTreeMap<u16, (u8, u8)> = BTreeMap::new(); // idx -> (class, current wire octet)
@@ -166,6 +168,10 @@ pub fn check(hdr: &str, lines: &[String], trace: &[(String, Vec<String>)], mon: 
     let mut sent: HashSet<Vec<u8>> = HashSet::new();
     let mut carried_of: std::collections::HashMap<Vec<u8>, Vec<u64>> = std::collections::HashMap::new();
     let mut last_request: Option<Vec<u8>> = None;
+    let mut last_read: Option<Vec<u8>> = None;
+    let mut in_sol_wait = false;
+    let mut outstanding_unsol: Vec<u64> = Vec::new();
+    let mut outstanding_sol: Vec<u64> = Vec::new();
 
     for (k, (op, outs)) in trace.iter().enumerate() {
         let ws: Vec<&str> = op.split_whitespace().collect();
@@ -268,6 +274,7 @@ pub fn check(hdr: &str, lines: &[String], trace: &[(String, Vec<String>)], mon: 
             }
             "cut" => {
                 series = None;
+                session += 1;
             }
             _ => {}
         }
@@ -288,6 +295,7 @@ pub fn check(hdr: &str, lines: &[String], trace: &[(String, Vec<String>)], mon: 
             sent.clear();
             carried_of.clear();
         }
+        let mut pending_enable: Vec<(usize, bool)> = Vec::new();
         // enable / disable unsolicited: tracked from the request itself when it was processed
         // (answered when unicast, `broadcast … processed` when broadcast)
         if ws[0] == "rx" {
@@ -298,19 +306,37 @@ pub fn check(hdr: &str, lines: &[String], trace: &[(String, Vec<String>)], mon: 
             let accepted = anymaster || src == 1;
             let processed = (unicast && accepted && outs.iter().any(|o| o.starts_with("tx ")))
                 || (dst >= 0xFFFD && outs.iter().any(|o| o.starts_with("cb broadcast") && o.ends_with("processed")));
+            if f.len() >= 2 && f[1] == 21 && f[0] & 0xF0 == 0xC0 && unsolicited && processed && unicast && !repeat_request {
+                // DISABLE_UNSOLICITED handled during the wait cancels the series (no callback tells)
+                outstanding_unsol.clear();
+            }
             if f.len() >= 2 && (f[1] == 20 || f[1] == 21) && f[0] & 0xF0 == 0xC0 && unsolicited && processed {
                 let objs = &f[2..];
                 if objs.len() % 3 == 0 && objs.chunks(3).all(|c| c[0] == 0x3c && c[2] == 0x06) {
                     // a byte-identical repeat is echoed, not executed — but executing it again is idempotent
+                    // a request retained by an aborted confirm wait is processed AFTER the idle pass that
+                    // may already have started an unsolicited response in this same op
+                    let deferred_effect = outs.iter().any(|o| o.starts_with("cb sol_new_request")) && outs.iter().any(|o| o.starts_with("cb unsol_wait"));
                     for c in objs.chunks(3) {
                         if (2..=4).contains(&c[1]) {
-                            enabled[(c[1] - 2) as usize] = f[1] == 20;
+                            if deferred_effect {
+                                pending_enable.push(((c[1] - 2) as usize, f[1] == 20));
+                            } else {
+                                enabled[(c[1] - 2) as usize] = f[1] == 20;
+                            }
                         }
                     }
                 }
             }
         }
 
+        // responses no longer awaiting confirmation (these callbacks precede this op's transmissions)
+        if outs.iter().any(|o| o.starts_with("cb unsol_confirmed") || (o.starts_with("cb unsol_timeout") && o.ends_with(" 0"))) || ws[0] == "cut" {
+            outstanding_unsol.clear();
+        }
+        if outs.iter().any(|o| o.starts_with("cb sol_confirmed") || o.starts_with("cb sol_timeout") || o.starts_with("cb sol_new_request")) || ws[0] == "cut" {
+            outstanding_sol.clear();
+        }
         // ---- releases (before this op's transmissions: a confirm op clears, then continues the series)
         let cleared: Vec<u64> = outs.iter().filter_map(|o| o.strip_prefix("cb event_cleared ").map(|x| x.trim().parse().unwrap())).collect();
         if outs.iter().any(|o| o.starts_with("cb begin_confirm")) {
@@ -326,8 +352,9 @@ pub fn check(hdr: &str, lines: &[String], trace: &[(String, Vec<String>)], mon: 
                 if !carried_by_confirmed {
                     // D4: carried only by an unsolicited response that was never confirmed
                     let carriers: Vec<&TxRec> = txs.iter().filter(|t| t.carried.contains(id)).collect();
+                    let d19 = !carriers.is_empty() && carriers.iter().all(|t| t.session < session);
                     let d4 = !carriers.is_empty() && carriers.iter().all(|t| t.uns);
-                    fail(mon, hdr, "released_only_after_confirm", if d4 { "D4" } else { "" }, &format!("op {k}: event {id} released, not carried by the confirmed response"));
+                    fail(mon, hdr, "released_only_after_confirm", if d19 { "D19" } else if d4 { "D4" } else { "" }, &format!("op {k}: event {id} released, not carried by the confirmed response"));
                 }
                 match ledger.iter_mut().find(|e| e.id == *id) {
                     Some(e) => {
@@ -361,10 +388,18 @@ pub fn check(hdr: &str, lines: &[String], trace: &[(String, Vec<String>)], mon: 
             fail(mon, hdr, "released_only_after_confirm", "", &format!("op {k}: events released without a confirm"));
         }
 
+        let mut echo_op = false;
         // ---- a new READ request starts a series expectation (snapshot at request time)
         if ws[0] == "rx" && ws[1] == "1" && ws[2] == "1024" {
             let f = unhex(ws[3]);
+            let echo_of_read = in_sol_wait && last_read.as_ref() == Some(&f) && !outs.iter().any(|o| o.starts_with("cb sol_new_request"));
             if f.len() >= 2 && f[1] == 1 && f[0] & 0xF0 == 0xC0 {
+                last_read = Some(f.clone());
+            }
+            if echo_of_read {
+                // a READ repeated during the confirm wait is echoed from memory: not a new series
+                echo_op = true;
+            } else if f.len() >= 2 && f[1] == 1 && f[0] & 0xF0 == 0xC0 {
                 // the expectation (snapshot) is taken when the first fragment is transmitted: at once for a
                 // READ processed from idle, when the unsolicited series ends for a deferred READ
                 series = expected_static(&f[2..], &bin_pts, &an_pts).map(|want| Series { req: f[2..].to_vec(), want, got: Vec::new(), first_seq: f[0] & 0x0F, next_seq: f[0] & 0x0F, frags: 0, valid: true });
@@ -449,7 +484,7 @@ pub fn check(hdr: &str, lines: &[String], trace: &[(String, Vec<String>)], mon: 
                         continue;
                     }
                     let c = (e.class - 1) as usize;
-                    if !carried.contains(&e.id) {
+                    if !carried.contains(&e.id) && !outstanding_unsol.contains(&e.id) && !outstanding_sol.contains(&e.id) {
                         want[c] = true;
                     }
                     // events still marked as written by an earlier response that was never confirmed nor
@@ -476,7 +511,7 @@ pub fn check(hdr: &str, lines: &[String], trace: &[(String, Vec<String>)], mon: 
                 }
             }
             // C11: series bookkeeping
-            if !uns {
+            if !uns && !echo_op {
                 if let Some(s) = series.as_mut() {
                     let seq = b[0] & 0x0F;
                     let fir = b[0] & 0x80 != 0;
@@ -515,9 +550,32 @@ pub fn check(hdr: &str, lines: &[String], trace: &[(String, Vec<String>)], mon: 
                     }
                 }
             }
+            if uns {
+                outstanding_unsol = carried.clone();
+            } else if b[0] & 0x20 != 0 {
+                outstanding_sol = carried.clone();
+            } else {
+                outstanding_sol.clear();
+            }
             carried_of.insert(b.clone(), carried.clone());
-            txs.push(TxRec { uns, seq: b[0] & 0x0F, carried });
+            txs.push(TxRec { session, uns, seq: b[0] & 0x0F, carried });
             sent.insert(b.clone());
+        }
+        for (c, v) in pending_enable {
+            enabled[c] = v;
+        }
+        for o in outs {
+            if o.starts_with("cb sol_wait") {
+                in_sol_wait = true;
+            } else if o.starts_with("cb sol_timeout") || o.starts_with("cb sol_new_request") {
+                // (a retained request may start a new wait in the same op: handled by sol_wait above order)
+                in_sol_wait = outs.iter().rev().take_while(|x| !x.starts_with("cb sol_timeout") && !x.starts_with("cb sol_new_request")).any(|x| x.starts_with("cb sol_wait"));
+            } else if o.starts_with("cb sol_confirmed") {
+                in_sol_wait = outs.iter().any(|x| x.starts_with("tx ") && { let b = unhex(x.split_whitespace().nth(2).unwrap_or("-")); b.len() >= 2 && b[1] == 0x81 && b[0] & 0x20 != 0 });
+            }
+        }
+        if ws[0] == "cut" {
+            in_sol_wait = false;
         }
     }
     d3_panic
